@@ -26,6 +26,10 @@ func init() {
 		Mutants: []Mutant{
 			{Name: "@provides looked up by field name only (seeded change C01-22)", File: "v2/pkg/engine/plan/datasource_filter_collect_nodes_visitor.go", Rule: "C01-R9", Key: "hasProvidesConfiguration/field-name-lookup-also-compares-type-name",
 				Old: "\t\treturn provide.TypeName == typeName && provide.FieldName == fieldName\n", New: "\t\treturn provide.FieldName == fieldName\n"},
+			{Name: "merged scope is unscoped only when both sides are (seeded change C01-1)", File: "v2/pkg/engine/postprocess/deduplicate_single_fetches.go", Rule: "C01-R10", Key: "mergeTypeNames/empty-scope-absorbs",
+				Old: "\tif len(left) == 0 || len(right) == 0 {\n\t\treturn nil", New: "\tif len(left) == 0 && len(right) == 0 {\n\t\treturn nil"},
+			{Name: "only the last path element's scope is merged (seeded change C01-12)", File: "v2/pkg/engine/postprocess/deduplicate_single_fetches.go", Rule: "C01-R12", Key: "deduplicateSingleFetches.mergeFetchPath/scope-merged-at-every-element",
+				Old: "\tfor i := range left {\n\t\tleft[i].TypeNames = d.mergeTypeNames(left[i].TypeNames, right[i].TypeNames)\n\t}\n", New: "\tif i := len(left) - 1; i >= 0 {\n\t\tleft[i].TypeNames = d.mergeTypeNames(left[i].TypeNames, right[i].TypeNames)\n\t}\n"},
 			{Name: "merged fetch keeps the fragment scope of its first member (seeded change C01-21)", File: "v2/pkg/engine/postprocess/deduplicate_single_fetches.go", Rule: "C01-R10", Key: "mergeTypeNames/empty-scope-absorbs",
 				Old: "\tif len(left) == 0 || len(right) == 0 {\n\t\treturn nil // if either side is empty, fetch is unscoped\n\t}\n", New: "\tif len(left) == 0 {\n\t\treturn nil\n\t}\n\tif len(right) == 0 {\n\t\treturn left\n\t}\n"},
 			{Name: "enclosing type of a field resolved in the operation document by the path builder", File: "v2/pkg/engine/plan/path_builder_visitor.go", Rule: "C01-R8", Key: "pathBuilderVisitor.EnterField/Node.NameString",
@@ -441,6 +445,7 @@ func runC01(r *fw.Run) {
 	c01BatchDedupIndex(r)
 	c01CoordinateCompleteness(r)
 	c01MergedScopeKeepsUnscoped(r)
+	c01ScopeMergedAtEveryElement(r)
 
 	r.Rule("C01-R11", "in the GraphQL data source planner the ref of an ast.Value is handed to an accessor of kind K only where the value's kind is known to be K (one frozen, reasoned exception)")
 	nKR := kindRefAgreement(r, "C01-R11", []string{"gqlds"}, map[string]string{
@@ -735,12 +740,25 @@ func c01MergedScopeKeepsUnscoped(r *fw.Run) {
 					for _, nm := range named {
 						st.Set("empty:" + nm)
 					}
+					// the converse knowledge: a scope known to be non-empty (an atom or a conjunct; a disjunct establishes nothing)
+					if op == "atom" || op == "and" {
+						for _, a := range leaves {
+							if id, isID := ast.Unparen(a.X).(*ast.Ident); isID && (a.Kind == "NonEmpty" || a.Kind == "NonNil") {
+								for _, pv := range params {
+									if info.Uses[id] == pv {
+										st.Set("nonempty:" + pv.Name())
+									}
+								}
+							}
+						}
+					}
 				},
 				Node: func(nd ast.Node, st *fw.State) {
 					for _, t := range fw.WriteTargets(info, nd) {
 						for _, pv := range params {
 							if fw.RootObj(info, t) == pv {
 								st.Kill("empty:" + pv.Name())
+								st.Kill("nonempty:" + pv.Name())
 							}
 						}
 					}
@@ -749,21 +767,37 @@ func c01MergedScopeKeepsUnscoped(r *fw.Run) {
 					if lit != nil || ret == nil || !in.Final() || len(ret.Results) != 1 {
 						return
 					}
+					isNil := false
+					if id, isID := ast.Unparen(ret.Results[0]).(*ast.Ident); isID && info.Uses[id] == types.Universe.Lookup("nil") {
+						isNil = true
+					}
+					if cl, isCL := ast.Unparen(ret.Results[0]).(*ast.CompositeLit); isCL && len(cl.Elts) == 0 {
+						isNil = true
+					}
+					// returning an input that is known to be empty is returning the empty scope
+					if id, isID := ast.Unparen(ret.Results[0]).(*ast.Ident); isID {
+						for _, pv := range params {
+							if info.Uses[id] == pv && st.Must("empty:"+pv.Name()) {
+								isNil = true
+							}
+						}
+					}
 					for _, pv := range params {
 						if !st.Must("empty:" + pv.Name()) {
 							continue
-						}
-						isNil := false
-						if id, isID := ast.Unparen(ret.Results[0]).(*ast.Ident); isID && info.Uses[id] == types.Universe.Lookup("nil") {
-							isNil = true
-						}
-						if cl, isCL := ast.Unparen(ret.Results[0]).(*ast.CompositeLit); isCL && len(cl.Elts) == 0 {
-							isNil = true
 						}
 						if isNil {
 							covered[pv.Name()] = true
 						} else {
 							bad = p.Pos(ret.Pos()) + " (scope " + pv.Name() + " empty)"
+						}
+					}
+					// a scoped result is only right where both inputs are known to be scoped
+					if !isNil {
+						for _, pv := range params {
+							if !st.Must("nonempty:" + pv.Name()) {
+								bad = p.Pos(ret.Pos()) + " (a scoped result is returned although scope " + pv.Name() + " may be empty)"
+							}
 						}
 					}
 				},
@@ -781,4 +815,112 @@ func c01MergedScopeKeepsUnscoped(r *fw.Run) {
 		})
 	}
 	r.Expect("C01-R10", "functions computing a merged TypeNames scope", n, 1)
+}
+
+// c01ScopeMergedAtEveryElement (R12): the type condition of a fetch can sit on any element of its path (the fragment may be
+// several object levels above the entity). When two fetches are de-duplicated the scopes are merged per element; a merge
+// that visits only some elements leaves the surviving fetch with the first member's scope on the others, and the parents
+// that only the second member covered silently get null. The assignment of the merged TypeNames therefore sits directly in
+// a loop that ranges over one of the merged paths, is indexed by that loop's variable, and is reached on every iteration
+// (no continue / break / return before it).
+func c01ScopeMergedAtEveryElement(r *fw.Run) {
+	p := r.Prog
+	r.Rule("C01-R12", "the per-element merge of TypeNames scopes of two de-duplicated fetch paths runs for every element: the assignment is in a range loop over a merged path, indexed by the loop variable, with no early continue/break/return")
+	n := 0
+	for _, fi := range p.Funcs("postprocess") {
+		info := fi.Info()
+		var loops []ast.Stmt
+		var visit func(nd ast.Node) bool
+		check := func(as *ast.AssignStmt) {
+			call, isCall := ast.Unparen(as.Rhs[0]).(*ast.CallExpr)
+			if !isCall || p.FuncOf(fw.Callee(info, call)) == nil {
+				return
+			}
+			n++
+			sel := ast.Unparen(as.Lhs[0]).(*ast.SelectorExpr)
+			ix, isIx := ast.Unparen(sel.X).(*ast.IndexExpr)
+			why := ""
+			var rs *ast.RangeStmt
+			if len(loops) > 0 {
+				rs, _ = loops[len(loops)-1].(*ast.RangeStmt)
+			}
+			switch {
+			case !isIx:
+				why = "the element is not addressed by an index"
+			case rs == nil:
+				why = "the assignment is not in a range loop"
+			default:
+				key, _ := rs.Key.(*ast.Ident)
+				idx, _ := ast.Unparen(ix.Index).(*ast.Ident)
+				if key == nil || idx == nil || info.ObjectOf(key) == nil || info.ObjectOf(key) != info.ObjectOf(idx) {
+					why = "the element index is not the loop variable"
+				} else if _, isSlice := info.TypeOf(rs.X).Underlying().(*types.Slice); !isSlice || !fw.TypeIs(elemOf(info.TypeOf(rs.X)), "resolve", "FetchItemPathElement") {
+					why = "the loop does not range over a fetch path"
+				} else {
+					// reached on every iteration
+					in := fw.NewInterp(fi)
+					in.H = fw.Hooks{
+						Node: func(nd ast.Node, st *fw.State) {
+							if nd == ast.Node(as) {
+								st.Set("merged")
+							}
+						},
+						Exit: func(ret *ast.ReturnStmt, lit *ast.FuncLit, st *fw.State) {
+							if lit == nil {
+								why = "the loop body returns at " + p.Pos(ret.Pos())
+							}
+						},
+					}
+					next, brk := in.RunLoopBody(rs.Body.List, nil)
+					if brk != nil {
+						why = "the loop body breaks out"
+					} else if next == nil || !next.Must("merged") {
+						why = "an iteration can skip the merge"
+					}
+				}
+			}
+			r.Check(why == "", "C01-R12", fi.Name()+"/scope-merged-at-every-element", p.Pos(as.Pos()), fi.Name()+" merges the TypeNames scope of every path element (range loop over the path, indexed by its variable, reached on every iteration)",
+				"the scopes of two de-duplicated fetches are merged only for some path elements ("+why+"): a type condition carried by another element keeps the first member's scope, and parents that only the second member covered silently get null")
+		}
+		visit = func(nd ast.Node) bool {
+			switch x := nd.(type) {
+			case *ast.RangeStmt:
+				loops = append(loops, x)
+				ast.Inspect(x.Body, visit)
+				loops = loops[:len(loops)-1]
+				return false
+			case *ast.ForStmt:
+				loops = append(loops, x)
+				ast.Inspect(x.Body, visit)
+				loops = loops[:len(loops)-1]
+				return false
+			case *ast.IfStmt, *ast.SwitchStmt, *ast.TypeSwitchStmt, *ast.SelectStmt:
+				// a conditional between the loop and the assignment is seen by the body interpretation below; one that
+				// contains the whole loop is irrelevant
+			case *ast.FuncLit:
+				saved := loops
+				loops = nil
+				ast.Inspect(x.Body, visit)
+				loops = saved
+				return false
+			case *ast.AssignStmt:
+				if len(x.Lhs) == 1 && len(x.Rhs) == 1 && fw.IsFieldSel(info, x.Lhs[0], "resolve", "FetchItemPathElement", "TypeNames") {
+					check(x)
+				}
+			}
+			return true
+		}
+		ast.Inspect(fi.Decl.Body, visit)
+	}
+	r.Expect("C01-R12", "per-element scope merges", n, 1)
+}
+
+func elemOf(t types.Type) types.Type {
+	if t == nil {
+		return nil
+	}
+	if s, ok := t.Underlying().(*types.Slice); ok {
+		return s.Elem()
+	}
+	return nil
 }
